@@ -72,4 +72,10 @@ def run(S, clause_names, fn, cfgs=None, name=None, tolerate_refusal=True):
         S.static_vc("bounded:grid[%s]" % f["cfg"], fn, f["clause"], False, detail=repr(f["samples"])[:1500], kind="bounded-grid", model=dict(configuration=f["cfg"], witness=f["samples"][:2]))
     if refused and len(refused) == len(cfgs):
         S.crashes.append("every grid configuration failed to generate: %r" % refused[:2])
+    elif refused and tolerate_refusal is not True:
+        pass
+    for r_ in refused:
+        # every configuration of the reference set generates on the unchanged tree; a refusal
+        # leaves the clauses undecided for that configuration (exit 2), it is not a pass
+        S.undecided.append("reference configuration %s no longer generates: %s" % (r_["cfg"], r_["error"][:120]))
     return b
